@@ -10,4 +10,5 @@ INVARIANT PickedContains
 INVARIANT OutsideRaises
 INVARIANT InsideLocated
 INVARIANT MemoSound
+INVARIANT EmitMemoRelevant
 CHECK_DEADLOCK FALSE
